@@ -196,12 +196,34 @@ def install(prog):
         s = p.to_str()
         if not p.absolute:
             s = posixpath.join(ctx_cwd[0], s)
-        return posixpath.normpath(s)
+        s = posixpath.normpath(s)
+        links = ctx_links[0]
+        for _ in range(16):                 # follow symlinks on any prefix of the path
+            hit = None
+            for l in links:
+                if s == l or s.startswith(l + '/'):
+                    hit = l
+                    break
+            if hit is None:
+                break
+            s = posixpath.normpath(links[hit] + s[len(hit):])
+        return s
     ctx_cwd = ['/cwd']
+    ctx_links = [{}]
+
+    @B('canonicalize', 'std::fs::canonicalize')
+    def b_canonicalize(ctx, a, callee):
+        ctx_cwd[0] = ctx.cwd
+        ctx_links[0] = ctx.links
+        p = os_path(a[0])
+        if p in ctx.fs or any(k.startswith(p.rstrip('/') + '/') for k in ctx.fs):
+            return ok(to_path(p))
+        return err(io_error('No such file or directory (os error 2)'))
 
     @B('std::fs::File::open', 'File::open')
     def b_file_open(ctx, a, callee):
         ctx_cwd[0] = ctx.cwd
+        ctx_links[0] = ctx.links
         p = os_path(a[0])
         ctx.event('open', p)
         c = ctx.fs.get(p)
@@ -232,6 +254,7 @@ def install(prog):
     @B('std::fs::read_to_string', 'read_to_string')
     def b_fs_read_to_string(ctx, a, callee):
         ctx_cwd[0] = ctx.cwd
+        ctx_links[0] = ctx.links
         p = os_path(a[0])
         ctx.event('open', p)
         c = ctx.fs.get(p)
@@ -280,6 +303,7 @@ def install(prog):
     @B('Path::exists', 'Path::is_file')
     def b_path_exists(ctx, a, callee):
         ctx_cwd[0] = ctx.cwd
+        ctx_links[0] = ctx.links
         p = os_path(a[0])
         ctx.event('exists', p)
         return p in ctx.fs
